@@ -21,6 +21,11 @@ func seqs(tier string) []*mc.Seq {
 		// most maxMods successful local modifications and one CAS failure.
 		cfg.maxMods = 2
 		letters := len(alphabet(c, cfg))
+		if cfg.corrupt {
+			// The two storage corruption letters do not count for the
+			// depth: the variant is explored as deep as the input itself.
+			letters -= 2
+		}
 		var quick, thor int
 		switch {
 		case letters <= 25:
@@ -48,12 +53,12 @@ func seqs(tier string) []*mc.Seq {
 		r = append(r, newSeq(c, cfg))
 	}
 	variants := map[string][]config{
-		"w1/a=f0,b=f1":      {{tag: "fuse", cacheCount: 1000}},
-		"w1/a=f0x,b=f0x":    {{tag: "fuse", cacheCount: 1000}},
-		"w1/a=f0,b=dG":      {{tag: "merge", nfs: true, cacheCount: 1000, explicitMerge: true}, {tag: "fuse", cacheCount: 1000}},
+		"w1/a=f0,b=f1":      {{tag: "fuse", cacheCount: 1000}, {tag: "corrupt", nfs: true, cacheCount: 1000, corrupt: true}},
+		"w1/a=f0x,b=f0x":    {{tag: "fuse", cacheCount: 1000}, {tag: "fuse-corrupt", cacheCount: 1000, corrupt: true}},
+		"w1/a=f0,b=dG":      {{tag: "merge", nfs: true, cacheCount: 1000, explicitMerge: true}, {tag: "fuse", cacheCount: 1000}, {tag: "corrupt", nfs: true, cacheCount: 1000, corrupt: true}},
 		"w2/shared-depths":  {{tag: "fuse", cacheCount: 1000}, {tag: "cache1", nfs: true, cacheCount: 1}, {tag: "cache2", nfs: true, cacheCount: 2}, {tag: "warm", nfs: true, cacheCount: 1000, warm: true}},
 		"w2/chain3":         {{tag: "cache1", nfs: true, cacheCount: 1}},
-		"w2/mix":            {{tag: "merge", nfs: true, cacheCount: 1000, explicitMerge: true}, {tag: "warm", nfs: true, cacheCount: 1000, warm: true}},
+		"w2/mix":            {{tag: "merge", nfs: true, cacheCount: 1000, explicitMerge: true}, {tag: "warm", nfs: true, cacheCount: 1000, warm: true}, {tag: "corrupt", nfs: true, cacheCount: 1000, corrupt: true}},
 		"w2/same-blob-exec": {{tag: "fuse", cacheCount: 1000}, {tag: "monitor", nfs: true, cacheCount: 1000, monitor: true}},
 		"w1/a=f0x,b=dG":     {{tag: "monitor", nfs: true, cacheCount: 1000, monitor: true}},
 		"w2/two-syms":       {{tag: "fuse", cacheCount: 1000}},
